@@ -55,6 +55,10 @@ JOBS = [
 # the public API functions are one-line forwarders to the bodies under contract: checked mechanically (DESIGN 3.5b)
 from units.common_forward import forward_job
 JOBS = list(JOBS) + [forward_job("c12")]
+# the record and the stack of a NEW thread: creation writes the fields the release paths read (stack, detach state, lock);
+# the creation job of C01 is part of this check
+import importlib as _il
+JOBS = list(JOBS) + [j for j in _il.import_module("units.c01").JOBS if j.name in ("c01.create",)]
 META = {
  "level": "proof",
  "level_text": "Every obligation generated from the real allocator bodies (size classes for all sizes 1..2^30, free-list push/pop with frame, "
